@@ -12,9 +12,14 @@ NOT proved — it is searched, by mutation and trace validation, and the evidenc
    show the pass numbers / second-pass calls the model predicts.
    Tie (b) — trace validation: every real run below is observed from outside (line events on the loop counters,
    exit status, markers in the output) and the observation must be accepted by the model (`Driver/C20.lean`).
-3. Search: corpus programs × one or two structure-aware mutations + generated programs + a malformed stream +
-   per-module config sections, as single batch runs (subprocesses) and as successive daemon edits (in-process
-   Server, which must keep answering and agree with a fresh run on unmutated probe programs).  A crash, a hang
+3. Search: corpus programs × one or two structure-aware mutations (incl. `nest`: a refining call nested in an
+   argument of itself) + generated programs (deferral chains / cycles, overrides of never-inferred attributes at
+   every placement, partial types refined in nested places) + a malformed stream + per-module config sections,
+   as single batch runs (subprocesses) and as successive daemon edits (in-process Server driven like
+   `dmypy check main.py`, follow-imports=normal; single programs replaced wholesale, and multi-module projects
+   with import cycles where several cycle members are edited per request), which must keep answering within the
+   CPU limit and agree with a fresh run on unmutated probe programs.  When a defer site of checker.py loses its
+   `pass_num < last_pass` guard, the programs of the family that reaches that site (gen.DEFER_SITE_FAMILIES) are run.  A crash, a hang
    or a rejected trace is minimised (delete lines while the same failure persists) and reported with the input;
    known crash classes are matched narrowly (class + exception type + innermost mypy frame).
 """
@@ -403,11 +408,13 @@ def loop_correspondence(ctx: Ctx, info: dict, runner: Runner) -> None:
     for k in ks:
         for extra in ([], [rng.randint(0, 5)], [rng.randint(0, 5), rng.randint(0, 5)]):
             chain = [k] + extra
-            src = "".join(gen.defer_chain(kk, f"C{j}") for j, kk in enumerate(chain))
+            # (a unique first line: two programs with the same text in one cache directory would make the second run
+            # replay the cached result of the first instead of checking anything)
+            src = f"# chain {chain} #{len(jobs)} seed {ctx.seed}\n" + "".join(gen.defer_chain(kk, f"C{j}") for j, kk in enumerate(chain))
             jobs.append((chain, src))
     for k in range(1, 4):
         # a cycle never resolves: the model's oracle "wants to defer in every pass" (depth 99)
-        jobs.append(([99], gen.defer_cycle(k, "Y")))
+        jobs.append(([99], f"# cycle {k} seed {ctx.seed}\n" + gen.defer_cycle(k, "Y")))
     lines = ["P " + " ".join(str(k) for k in ch) for ch, _ in jobs]
     model = ctx.lean_driver("Driver/C20.lean", lines)
     with ThreadPoolExecutor(max_workers=NPROC) as ex:
@@ -630,7 +637,7 @@ def batch_search(ctx: Ctx, runner: Runner) -> None:
             bad += 1
             ctx.count("disagreements_checked")
             sig0 = classify(res, v)
-            sigkey = (sig0.get("class"), sig0.get("exc"), sig0.get("file"), sig0.get("frame"), sig0.get("reason"), sig0.get("loop"))
+            sigkey = (sig0.get("class"), sig0.get("exc"), sig0.get("file"), sig0.get("frame"), sig0.get("caller"), sig0.get("reason"), sig0.get("loop"))
             if sig0["class"] == "hang":
                 # a time-out may be a slow run: each one is re-examined (a few at most)
                 nhang += 1
@@ -893,7 +900,9 @@ def daemon_search(ctx: Ctx, runner: Runner) -> None:
                 known = ctx.match_known(obs)
                 if known is not None and any(k == known["id"] for k, _ in ctx.known_hits):
                     continue
-                sigkey = (obs["class"], obs.get("exc"), obs.get("file"), obs.get("frame"), obs.get("reason"))
+                # (a non-terminating loop is sampled at an arbitrary point: unknown hangs are reported once, whatever the frame)
+                sigkey = (obs["class"],) if obs["class"] == "hang" else \
+                    (obs["class"], obs.get("exc"), obs.get("file"), obs.get("frame"), obs.get("caller"), obs.get("reason"))
                 if sigkey in seen_sigs:
                     continue
                 seen_sigs.add(sigkey)
@@ -950,6 +959,8 @@ def daemon_search(ctx: Ctx, runner: Runner) -> None:
             obs = {"class": "daemon-differs-from-fresh", "mode": "daemon", "detail": "deleted-module-still-known"}
         elif not left and partially_defined_pattern(only_daemon, only_fresh):
             obs = {"class": "daemon-differs-from-fresh", "mode": "daemon", "detail": "partially-defined-errors-lost"}
+        elif self_dropped_pattern(only_daemon, only_fresh):
+            obs = {"class": "daemon-differs-from-fresh", "mode": "daemon", "detail": "signature-note-without-self"}
         known = ctx.match_known(obs)
         if known is not None and any(k == known["id"] for k, _ in ctx.known_hits):
             continue
@@ -1055,6 +1066,15 @@ def deleted_module_pattern(only_daemon: list[str], only_fresh: list[str]) -> boo
     return bool(dm) and dm == fm
 
 
+def self_dropped_pattern(only_daemon: list[str], only_fresh: list[str]) -> bool:
+    """the differing lines are signature notes (`note:   def f(self, …)`) that are equal once the leading `self`
+    parameter is removed from the fresh run's lines"""
+    def strip(l: str) -> str:
+        return re.sub(r"\((self|cls)(, |(?=\)))", "(", l)
+    return bool(only_daemon) and len(only_daemon) == len(only_fresh) and all(": note: " in l and "def " in l for l in only_fresh) \
+        and sorted(only_daemon) == sorted(strip(l) for l in only_fresh) and sorted(only_daemon) != sorted(only_fresh)
+
+
 def partially_defined_pattern(only_daemon: list[str], only_fresh: list[str]) -> bool:
     """the daemon has no extra line; every line only the fresh run has is a used-before-def / possibly-undefined error"""
     return not only_daemon and bool(only_fresh) and all(
@@ -1091,6 +1111,7 @@ WITNESSES = [
                                           "class N6(TypedDict):\n    b: Type[N6]\n"}, [], "batch"),
     ("concatenate-params", {"main.py": "from typing_extensions import Concatenate\n"
                                        "def c(t: tuple[Concatenate[int, ...]]) -> None:\n    bool_f: Field[bool]\n"}, [], "batch"),
+    ("partial-indexed-assignment", {"main.py": "d = {}\nd[1] = [d.update({1: 1})]\n"}, [], "batch"),
     ("unpack-undefined", {"main.py": "from collections.abc import Callable\nfrom typing import Unpack\n"
                                      "type F = Callable[[Unpack[Undefined], int], int]\n"
                                      "def ff(a: float, b: int, c: int) -> int:\n    return 2\nbis: F = ff\nbis(1.0, 2, 3)\n"}, [], "batch"),
@@ -1105,6 +1126,11 @@ WITNESSES = [
     ("daemon-placeholder-snapshot", "corpus/c20/daemon_placeholder_snapshot.json", [], "daemon"),
     # a function that has to be deferred twice: the daemon runs a single second pass after an edit
     ("daemon-single-second-pass", [{"main.py": "x: int = 1\n"}, {"main.py": gen.defer_chain(2)}], [], "daemon-compare"),
+    # a module-level function `f`, then a method `f` overriding incompatibly: the daemon prints the subclass signature without `self`
+    ("daemon-signature-note-without-self",
+     [{"main.py": "from functools import partial\ndef f(x: int, y: str) -> str:\n    return y\nfp = partial(f, 1)\nfp('a')\n"},
+      {"main.py": "class A(object):\n    def f(self, a: int, b: str) -> None: pass\n\nclass B(A):\n    def f(self, b: int, a: str) -> None: pass\n"}],
+     [], "daemon-compare"),
     # used-before-def comes from a separate pass that is not re-run when a dependency changes
     ("daemon-partially-defined-lost", [{"main.py": "import m\ndef f() -> None:\n    print(m.x)\n    print(y)\n    y = 1\n", "m.py": "x = 1\n"},
                                        {"main.py": "import m\ndef f() -> None:\n    print(m.x)\n    print(y)\n    y = 1\n", "m.py": "x = ''\n"}],
@@ -1166,6 +1192,8 @@ def witnesses(ctx: Ctx, runner: Runner, info: dict) -> None:
                        "only_fresh_has_lines": bool(set(fresh) - set(got)), "only_daemon_has_lines": bool(set(got) - set(fresh))}
                 if not obs["left_deferred"] and partially_defined_pattern(sorted(set(got) - set(fresh)), sorted(set(fresh) - set(got))):
                     obs = {"class": "daemon-differs-from-fresh", "mode": "daemon", "detail": "partially-defined-errors-lost"}
+                elif self_dropped_pattern(sorted(set(got) - set(fresh)), sorted(set(fresh) - set(got))):
+                    obs = {"class": "daemon-differs-from-fresh", "mode": "daemon", "detail": "signature-note-without-self"}
                 ctx.report(obs, f"daemon answer differs from a fresh run on the witness {wid}: only fresh {sorted(set(fresh) - set(got))[:3]}",
                            {"daemon_history": [{"write": s_["write"], "delete": s_["delete"]} for s_ in hist],
                             "daemon_out": got, "fresh_out": fresh})
